@@ -68,21 +68,26 @@ impl<T> Queue<T> {
     ) -> bool {
         // is `onto` the actual tail?
         let o = unsafe { onto.deref() };
+        vy!(31, onto.as_raw(), 0);
         let next = o.next.load(Acquire, guard);
+        vy!(1231, next.as_raw(), 0);
         if unsafe { next.as_ref().is_some() } {
             // if not, try to "help" by moving the tail pointer forward
+            vy!(32, onto.as_raw(), next.as_raw());
             let _ = self
                 .tail
                 .compare_exchange(onto, next, Release, Relaxed, guard);
             false
         } else {
             // looks like the actual tail; attempt to link in `n`
+            vy!(33, onto.as_raw(), new.as_raw());
             let result = o
                 .next
                 .compare_exchange(RawShared::null(), new, Release, Relaxed, guard)
                 .is_ok();
             if result {
                 // try to move the tail pointer forward
+                vy!(34, onto.as_raw(), new.as_raw());
                 let _ = self
                     .tail
                     .compare_exchange(onto, new, Release, Relaxed, guard);
@@ -100,7 +105,9 @@ impl<T> Queue<T> {
 
         loop {
             // We push onto the tail, so we'll start optimistically by looking there first.
+            vy!(30, new.as_raw(), 0);
             let tail = self.tail.load(Acquire, guard);
+            vy!(1230, tail.as_raw(), 0);
 
             // Attempt to push onto the `tail` snapshot; fails if `tail.next` has changed.
             if self.push_internal(tail, new, guard) {
@@ -112,17 +119,25 @@ impl<T> Queue<T> {
     /// Attempts to pop a data node. `Ok(None)` if queue is empty; `Err(())` if lost race to pop.
     #[inline(always)]
     fn pop_internal(&self, guard: &Guard) -> Result<Option<T>, ()> {
+        vy!(35, 0, 0);
         let head = self.head.load(Acquire, guard);
+        vy!(1235, head.as_raw(), 0);
         let h = unsafe { head.deref() };
+        vy!(36, head.as_raw(), 0);
         let next = h.next.load(Acquire, guard);
+        vy!(1236, next.as_raw(), 0);
         match unsafe { next.as_ref() } {
             Some(n) => unsafe {
+                vy!(37, head.as_raw(), next.as_raw());
                 self.head
                     .compare_exchange(head, next, Release, Relaxed, guard)
                     .map(|_| {
+                        vy!(38, 0, 0);
                         let tail = self.tail.load(Relaxed, guard);
+                        vy!(1238, tail.as_raw(), 0);
                         // Advance the tail so that we don't retire a pointer to a reachable node.
                         if head.ptr_eq(tail) {
+                            vy!(39, tail.as_raw(), next.as_raw());
                             let _ = self
                                 .tail
                                 .compare_exchange(tail, next, Release, Relaxed, guard);
@@ -144,17 +159,25 @@ impl<T> Queue<T> {
         T: Sync,
         F: Fn(&T) -> bool,
     {
+        vy!(40, 0, 0);
         let head = self.head.load(Acquire, guard);
+        vy!(1240, head.as_raw(), 0);
         let h = unsafe { head.deref() };
+        vy!(41, head.as_raw(), 0);
         let next = h.next.load(Acquire, guard);
+        vy!(1241, next.as_raw(), 0);
         match unsafe { next.as_ref() } {
             Some(n) if condition(unsafe { &*n.data.as_ptr() }) => unsafe {
+                vy!(42, head.as_raw(), next.as_raw());
                 self.head
                     .compare_exchange(head, next, Release, Relaxed, guard)
                     .map(|_| {
+                        vy!(43, 0, 0);
                         let tail = self.tail.load(Relaxed, guard);
+                        vy!(1243, tail.as_raw(), 0);
                         // Advance the tail so that we don't retire a pointer to a reachable node.
                         if head.ptr_eq(tail) {
+                            vy!(44, tail.as_raw(), next.as_raw());
                             let _ = self
                                 .tail
                                 .compare_exchange(tail, next, Release, Relaxed, guard);
@@ -462,5 +485,37 @@ mod test {
         assert!(!q.is_empty());
         assert!(!q.is_empty());
         assert!(q.try_pop().is_some());
+    }
+}
+
+/// A queue of words for the verification harness.
+#[cfg(circ_verif)]
+pub mod verif_shim_queue {
+    use super::*;
+
+    pub struct VQueue(Queue<u64>);
+
+    impl VQueue {
+        pub fn new() -> Self {
+            VQueue(Queue::new())
+        }
+        pub fn push(&self, v: u64, g: &Guard) {
+            self.0.push(v, g)
+        }
+        pub fn try_pop(&self, g: &Guard) -> Option<u64> {
+            self.0.try_pop(g)
+        }
+        pub fn try_pop_if<F: Fn(&u64) -> bool>(&self, f: F, g: &Guard) -> Option<u64> {
+            self.0.try_pop_if(f, g)
+        }
+        pub fn head_addr(&self) -> usize {
+            unsafe { self.0.head.load(Relaxed, &unprotected()).as_raw() as usize }
+        }
+    }
+
+    impl Default for VQueue {
+        fn default() -> Self {
+            Self::new()
+        }
     }
 }
